@@ -68,6 +68,12 @@ Theorem C10_segment3_center_is_midpoint : forall l,
 Proof. exact segment3_center_is_midpoint. Qed.
 Print Assumptions C10_segment3_center_is_midpoint.
 
+Theorem C10_sphere_box_contains_the_ball : forall s q, 0 <= sp_r s -> sqd3 q (sp_c s) <= sp_r s * sp_r s ->
+  v3x (Sphere_min s) <= v3x q <= v3x (Sphere_max s) /\ v3y (Sphere_min s) <= v3y q <= v3y (Sphere_max s) /\
+  v3z (Sphere_min s) <= v3z q <= v3z (Sphere_max s).
+Proof. exact sphere_box_contains. Qed.
+Print Assumptions C10_sphere_box_contains_the_ball.
+
 Example C10_nonvacuous :
   Base2DIn2D_min (mkPolygon2 [mkV2 3 1; mkV2 0 2; mkV2 5 (-1); mkV2 2 7]) = mkV2 0 (-1) /\
   Base2DIn2D_max (mkPolygon2 [mkV2 3 1; mkV2 0 2; mkV2 5 (-1); mkV2 2 7]) = mkV2 5 7.
